@@ -154,12 +154,16 @@ impl Vm {
                 } else {
                     let mut v = vec![];
                     let mut rest = expr;
-                    while rest.is_pair() {
+                    // a tail spelled `. ,x` is an unquote form, not two more elements
+                    while rest.is_pair() && (v.is_empty() || !rest.is_quasi_form()) {
                         v.push(self.transform_quasiquote(rest.car().unwrap(), depth)?);
                         rest = rest.cdr().unwrap();
                     }
                     if rest.is_nil() {
                         Ok(Cell::new_list(v))
+                    } else if rest.is_pair() {
+                        let tail = self.transform_quasiquote(rest, depth)?;
+                        Ok(Cell::new_improper_list(v, tail))
                     } else {
                         Ok(Cell::new_improper_list(v, rest.clone()))
                     }
@@ -764,15 +768,21 @@ impl Vm {
 
         let mut count = 0;
         let mut rest = expr;
-        while rest.is_pair() {
+        // a tail spelled `. ,x` is an unquote form, not two more elements
+        while rest.is_pair() && (count == 0 || !rest.is_quasi_form()) {
             let car = rest.car().unwrap();
             self.compile_quasiquote(lambda, car, depth)?;
             lambda.emit(OpCode::PushAcc);
             rest = rest.cdr().unwrap();
             count += 1;
         }
-        lambda.emit(OpCode::PushImmediate);
-        lambda.emit(self.heap.maybe_put_cell(rest));
+        if rest.is_pair() {
+            self.compile_quasiquote(lambda, rest, depth)?;
+            lambda.emit(OpCode::PushAcc);
+        } else {
+            lambda.emit(OpCode::PushImmediate);
+            lambda.emit(self.heap.maybe_put_cell(rest));
+        }
 
         for i in 0..count {
             lambda.emit(OpCode::Cons);
